@@ -134,6 +134,12 @@ TreeOf(shape, P) ==
       [] shape = "barel"  -> Top(P, <<Prop("rb", FALSE, Ref("rb", "", "R"))>>, <<>>,
                                  << Obj("R", "aR", <<Prop("xs", FALSE, ListOf(Ref("rr", "", "R")))>>) >>)
       \* a tree node written as the bare list of its children; the same through a map, and through a sibling
+      \* a shorthand chain through two DIFFERENT marker-less single-property objects that share an ID: the
+      \* root A{item: scope}, the inner scope's root B{w: ref A} where A is the INNER A{text}, shadowing the root
+      [] shape = "bares"  -> Scope("top", "A",
+                                   << Obj("A", "aA", <<Prop("item", FALSE,
+                                        Scope("s1", "B", << Obj("B", "bB", <<Prop("w", FALSE, Ref("rw", "", "A"))>>),
+                                                            Obj("A", "bA", <<Prop("text", FALSE, Leaf)>>) >>))>>) >>)
       [] shape = "barem"  -> Top(P, <<Prop("rb", FALSE, Ref("rb", "", "R"))>>, <<>>,
                                  << Obj("R", "aR", <<Prop("xs", TRUE, MapOf(Ref("rr", "", "R")))>>) >>)
       [] shape = "barel2" -> Top(P, <<Prop("rb", FALSE, Ref("rb", "", "R"))>>, <<>>,
@@ -153,6 +159,9 @@ IDsOf(sc, shape) ==
       [] sc = "s2"  -> {"A", "C"}
 Targets(sc, shape) == {<<"", id>> : id \in IDsOf(sc, shape)} \cup ExtTargets
 Places(shape, W, Q, DW) ==
+    IF shape = "bares"   \* a fixed tree; the placement is a dummy (no host of that name)
+    THEN {[hs |-> "top", ho |-> "none", w |-> "direct", ns |-> "", id |-> "A", req |-> FALSE, dis |-> ""]}
+    ELSE
     IF shape \in {"defr", "chain"}
     THEN {[hs |-> "top", ho |-> h, w |-> w, ns |-> tg[1], id |-> tg[2], req |-> FALSE, dis |-> ""] :
              h \in (IF shape = "defr" THEN {"B"} ELSE {"A", "B"}), w \in {"direct", "list", "map"},
@@ -189,6 +198,15 @@ HistBound == Len(hist) <= 40
 WellFormedInv == hist = <<>> => WellFormed(tree, ext)
 Canonical == Uniform /\ \A n \in Namespaces : NsTab[n] = CanonFor(params.shape)[n]
 InlineSame == (Canonical /\ MapBased) => (InlineSameAt(InlineK, RawD) /\ ShorthandLaw)
+\* Whatever the tree is held by when a namespace is applied - a property, a list, a map, a step output (all of
+\* which hand the call on to what they hold) - the same references get the same objects.
+HolderTransparent ==
+    hist = <<>> =>
+        \A a \in {x \in Acts : x.op = "ns" /\ x.scope = tree.tag /\ ~ix.miss[x]} :
+            LET objs == Table(ext[a.table]) IN
+            /\ Propagate(ListOf(tree), objs, a.ns) = ix.upd[a]
+            /\ Propagate(MapOf(tree), objs, a.ns) = ix.upd[a]
+            /\ Propagate(Obj("H", "h", <<Prop("held", FALSE, tree)>>), objs, a.ns) = ix.upd[a]
 Untouched == OtherNamespacesUntouched
 
 \* ------------------------------------------------------------------ export
